@@ -57,13 +57,22 @@ const (
 // <1.6.3.3 samplingFrequencyIndex>, <page 35/110>
 // <1.6.3.4 channelConfiguration>
 // --------------------------------------------------------
-// audio object type      [5b] 1=AAC MAIN  2=AAC LC
-// samplingFrequencyIndex [4b] 0=96000, 1=88200, 2=64000, 3=48000, 4=44100, 5=32000, 6=24000, 7=22050, 8=16000, 9=12000, 10=11025, 11=11025, 12=7350
+// audio object type      [5b] 1=AAC MAIN  2=AAC LC  31=escape, [6b] follow
+// samplingFrequencyIndex [4b] 0=96000, 1=88200, 2=64000, 3=48000, 4=44100, 5=32000, 6=24000, 7=22050, 8=16000, 9=12000, 10=11025, 11=11025, 12=7350, 15=escape, [24b] frequency follow
 // channelConfiguration   [4b] 1=center front speaker  2=left, right front speakers
 type AscContext struct {
-	AudioObjectType        uint8 // [5b]
-	SamplingFrequencyIndex uint8 // [4b]
-	ChannelConfiguration   uint8 // [4b]
+	// [5b]，值为31时后面跟着[6b]的扩展值，此时AudioObjectType=32+扩展值
+	//
+	// 注意，当asc使用显式信令的SBR/PS（HE-AAC，asc以audioObjectType 5或29开头）时，
+	// 此处存放的是后面跟着的真正的（底层编码的）audioObjectType，开头的5或29存放在 ExtensionAudioObjectType 中
+	AudioObjectType        uint8
+	SamplingFrequencyIndex uint8  // [4b]
+	SamplingFrequency      uint32 // [24b] 只在 SamplingFrequencyIndex 等于0xf时存在
+	ChannelConfiguration   uint8  // [4b]
+
+	ExtensionAudioObjectType        uint8  // 0表示asc没有使用显式信令的SBR/PS，否则为5(SBR)或29(PS)
+	ExtensionSamplingFrequencyIndex uint8  // [4b]
+	ExtensionSamplingFrequency      uint32 // [24b] 只在 ExtensionSamplingFrequencyIndex 等于0xf时存在
 }
 
 func NewAscContext(asc []byte) (*AscContext, error) {
@@ -74,9 +83,16 @@ func NewAscContext(asc []byte) (*AscContext, error) {
 	return &ascCtx, nil
 }
 
+const (
+	ascAudioObjectTypeEscape        = 31
+	ascSamplingFrequencyIndexEscape = 0xf
+	ascAudioObjectTypeSbr           = 5
+	ascAudioObjectTypePs            = 29
+)
+
 // Unpack
 //
-// @param asc: 2字节的AAC Audio Specifc Config。
+// @param asc: AAC Audio Specifc Config，通常为2字节，只解析头部的audioObjectType，samplingFrequency，channelConfiguration（以及显式信令的SBR/PS）
 //
 //	注意，如果是rtmp/flv的message/tag，应去除Seq Header头部的2个字节。
 //	函数调用结束后，内部不持有该内存块。
@@ -85,10 +101,33 @@ func (ascCtx *AscContext) Unpack(asc []byte) error {
 		return nazaerrors.Wrap(base.ErrShortBuffer)
 	}
 
+	// <ISO_IEC_14496-3.pdf> <1.6.2.1 AudioSpecificConfig> GetAudioObjectType()
 	br := nazabits.NewBitReader(asc)
-	ascCtx.AudioObjectType, _ = br.ReadBits8(5)
-	ascCtx.SamplingFrequencyIndex, _ = br.ReadBits8(4)
+	readAudioObjectType := func() uint8 {
+		v, _ := br.ReadBits8(5)
+		if v == ascAudioObjectTypeEscape {
+			ext, _ := br.ReadBits8(6)
+			v = 32 + ext
+		}
+		return v
+	}
+	readSamplingFrequency := func() (index uint8, frequency uint32) {
+		index, _ = br.ReadBits8(4)
+		if index == ascSamplingFrequencyIndexEscape {
+			frequency, _ = br.ReadBits32(24)
+		}
+		return
+	}
+
+	*ascCtx = AscContext{}
+	ascCtx.AudioObjectType = readAudioObjectType()
+	ascCtx.SamplingFrequencyIndex, ascCtx.SamplingFrequency = readSamplingFrequency()
 	ascCtx.ChannelConfiguration, _ = br.ReadBits8(4)
+	if ascCtx.AudioObjectType == ascAudioObjectTypeSbr || ascCtx.AudioObjectType == ascAudioObjectTypePs {
+		ascCtx.ExtensionAudioObjectType = ascCtx.AudioObjectType
+		ascCtx.ExtensionSamplingFrequencyIndex, ascCtx.ExtensionSamplingFrequency = readSamplingFrequency()
+		ascCtx.AudioObjectType = readAudioObjectType()
+	}
 	return nil
 }
 
@@ -96,11 +135,56 @@ func (ascCtx *AscContext) Unpack(asc []byte) error {
 //
 // @return asc: 内存块为独立新申请；函数调用结束后，内部不持有该内存块
 func (ascCtx *AscContext) Pack() (asc []byte) {
-	asc = make([]byte, minAscLength)
+	aotBits := func(v uint8) int {
+		if v >= 32 {
+			return 11
+		}
+		return 5
+	}
+	sfBits := func(index uint8) int {
+		if index == ascSamplingFrequencyIndexEscape {
+			return 28
+		}
+		return 4
+	}
+	first := ascCtx.AudioObjectType
+	if ascCtx.ExtensionAudioObjectType != 0 {
+		first = ascCtx.ExtensionAudioObjectType
+	}
+	n := aotBits(first) + sfBits(ascCtx.SamplingFrequencyIndex) + 4
+	if ascCtx.ExtensionAudioObjectType != 0 {
+		n += sfBits(ascCtx.ExtensionSamplingFrequencyIndex) + aotBits(ascCtx.AudioObjectType)
+	}
+	n = (n + 7) / 8
+	if n < minAscLength {
+		n = minAscLength
+	}
+
+	asc = make([]byte, n)
 	bw := nazabits.NewBitWriter(asc)
-	bw.WriteBits8(5, ascCtx.AudioObjectType)
-	bw.WriteBits8(4, ascCtx.SamplingFrequencyIndex)
+	writeAudioObjectType := func(v uint8) {
+		if v >= 32 {
+			bw.WriteBits8(5, ascAudioObjectTypeEscape)
+			bw.WriteBits8(6, v-32)
+		} else {
+			bw.WriteBits8(5, v)
+		}
+	}
+	writeSamplingFrequency := func(index uint8, frequency uint32) {
+		bw.WriteBits8(4, index)
+		if index == ascSamplingFrequencyIndexEscape {
+			bw.WriteBits8(8, uint8(frequency>>16))
+			bw.WriteBits8(8, uint8(frequency>>8))
+			bw.WriteBits8(8, uint8(frequency))
+		}
+	}
+	writeAudioObjectType(first)
+	writeSamplingFrequency(ascCtx.SamplingFrequencyIndex, ascCtx.SamplingFrequency)
 	bw.WriteBits8(4, ascCtx.ChannelConfiguration)
+	if ascCtx.ExtensionAudioObjectType != 0 {
+		writeSamplingFrequency(ascCtx.ExtensionSamplingFrequencyIndex, ascCtx.ExtensionSamplingFrequency)
+		writeAudioObjectType(ascCtx.AudioObjectType)
+	}
 	return
 }
 
@@ -181,6 +265,10 @@ func (ascCtx *AscContext) PackToAdtsHeader(out []byte, frameLength int) error {
 
 func (ascCtx *AscContext) GetSamplingFrequency() (int, error) {
 	switch ascCtx.SamplingFrequencyIndex {
+	case ascSamplingFrequencyIndexEscape:
+		if ascCtx.SamplingFrequency != 0 {
+			return int(ascCtx.SamplingFrequency), nil
+		}
 	case AscSamplingFrequencyIndex96000:
 		return 96000, nil
 	case AscSamplingFrequencyIndex88200:
